@@ -76,6 +76,10 @@ class Renderer(object):
     def nm(self, x):
         return self.names.get(x, x)
 
+    def filt(self, x):
+        f = x.get("filt")
+        return "" if not f or f.get("e") == "none" else " | %s" % self.ex(f)
+
     # ---- which variables does a body assign without declaring them? ----
     def assigned(self, x, acc, declared):
         """Collect names assigned directly in x (not inside nested lam/gen bodies) -> acc; names bound -> declared."""
@@ -223,9 +227,9 @@ class Renderer(object):
         if e == "while":
             return "while %s repeat %s" % (self.ex(x["c"]), self.ex(x["body"]))
         if e == "for":
-            return "for %s in %s..%s repeat %s" % (self.nm(x["x"]), self.ex(x["lo"]), self.ex(x["hi"]), self.ex(x["body"]))
+            return "for %s in %s..%s%s repeat %s" % (self.nm(x["x"]), self.ex(x["lo"]), self.ex(x["hi"]), self.filt(x), self.ex(x["body"]))
         if e == "forin":
-            return "for %s in %s repeat %s" % (self.nm(x["x"]), self.ex(x["src"]), self.ex(x["body"]))
+            return "for %s in %s%s repeat %s" % (self.nm(x["x"]), self.ex(x["src"]), self.filt(x), self.ex(x["body"]))
         if e == "break":
             return "break"
         if e == "iterate":
@@ -446,8 +450,9 @@ def _fun_refs(body, bound):
                 return
             if e in ("for", "forin"):
                 for k, v in x.items():
-                    if k != "body":
+                    if k not in ("body", "filt"):
                         walk(v, bnd)
+                walk(x.get("filt"), bnd | {x["x"]})
                 walk(x["body"], bnd | {x["x"]})
                 return
             if e == "collect":
